@@ -274,6 +274,33 @@ def run_sorting(ctx):
         raise AnalysisError("Selector.fast_nondominated_sorting not found")
     C = "Selector.fast_nondominated_sorting"
     selfn, pop = func_params(fn)[:2]
+    # a re-ordered copy of the population (X = sorted(pop, ...), list(pop), pop[:]) bound once holds the same member objects:
+    # every rule below is about unordered pairs of members and about writes to the members, so X is read as pop
+    import copy as _copy
+    perm = []
+    for s_ in fn.body:
+        if isinstance(s_, ast.Assign) and len(s_.targets) == 1 and isinstance(s_.targets[0], ast.Name):
+            v_ = s_.value
+            src = None
+            if isinstance(v_, ast.Call) and access_path(v_.func) in ("sorted", "list") and len(v_.args) == 1 and all(k.arg in ("key", "reverse") for k in v_.keywords):
+                src = access_path(v_.args[0])
+            elif isinstance(v_, ast.Subscript) and isinstance(v_.slice, ast.Slice) and v_.slice.lower is None and v_.slice.upper is None and v_.slice.step is None:
+                src = access_path(v_.value)
+            x_ = s_.targets[0].id
+            nbind = sum(1 for n_ in ast.walk(fn) if isinstance(n_, ast.Name) and n_.id in (x_, pop) and isinstance(n_.ctx, (ast.Store, ast.Del)))
+            mutated = any(isinstance(c_.func, ast.Attribute) and access_path(c_.func.value) in (x_, pop)
+                          and c_.func.attr in ("append", "remove", "pop", "insert", "extend", "clear", "sort", "reverse") for c_ in ast.walk(fn) if isinstance(c_, ast.Call))
+            if src == pop and x_ != pop and nbind == 1 and not mutated:
+                perm.append(s_)
+    if len(perm) == 1:
+        x_ = perm[0].targets[0].id
+        idx_ = fn.body.index(perm[0])
+        fn = _copy.deepcopy(fn)
+        del fn.body[idx_]
+        for n_ in ast.walk(fn):
+            if isinstance(n_, ast.Name) and n_.id == x_:
+                n_.id = pop
+        ctx.assume("the pair loops run over `%s`, a re-ordered copy of the population with the same members: read as the population itself" % x_)
     top = fn.body
     fors = [s for s in top if isinstance(s, ast.For)]
     whiles = [s for s in top if isinstance(s, ast.While)]
